@@ -109,6 +109,12 @@ func judge(res *core.Result, w *env.World, ops []opRun, scen, driverKind, word s
 	}
 	inFlight := func(o *opRun, seq int64) bool { return o != nil && o.start < seq && (o.end == 0 || seq < o.end) }
 
+	firstCall := map[*opRun]int64{}
+	for _, e := range log {
+		if o := byAgent[e.Agent]; o != nil && e.Phase == "done" && e.Class != "discovery" && firstCall[o] == 0 {
+			firstCall[o] = e.Seq
+		}
+	}
 	var j judged
 	// ---- per-key write history of revision records
 	type write struct {
@@ -211,15 +217,12 @@ func judge(res *core.Result, w *env.World, ops []opRun, scen, driverKind, word s
 				shape = "it proceeded although a concurrent op had successfully created the same revision (see double-create)"
 			}
 			if shape == "" {
-				// did it hold an in-flight revision record at the same time as another op?
-				for _, c := range own {
+				// did its lifetime (first call .. return) overlap another op's, and both created records?
+				if len(own) > 0 {
 					for _, k := range keys {
 						for _, c2 := range creates[k] {
-							if c2.o == o {
-								continue
-							}
-							if (c2.e.Seq > c.e.Seq && inFlight(o, c2.e.Seq)) || (c.e.Seq > c2.e.Seq && inFlight(c2.o, c.e.Seq)) {
-								shape = "both proceeded: it held an in-flight revision record at the same time as a concurrent " + opLabel(c2.o.op)
+							if p := c2.o; p != o && firstCall[p] < o.end && firstCall[o] < p.end {
+								shape = "both proceeded: it and an overlapping " + opLabel(p.op) + " each created a revision record"
 							}
 						}
 					}
